@@ -132,12 +132,13 @@ def AnyReq.id : AnyReq → Nat
   | .int r => r.id
   | .uod u => u.id
 
-/-- merge of two lists sorted by descending id -/
+/-- merge of two lists sorted by descending id (= arrival order, newest first): before each internal
+    request come the UOD requests that arrived after it -/
 def mergeReqs : List Req → List UReq → List AnyReq
   | [], us => us.map .uod
-  | rs, [] => rs.map .int
-  | r :: rs, u :: us =>
-    if r.id > u.id then .int r :: mergeReqs rs (u :: us) else .uod u :: mergeReqs (r :: rs) us
+  | r :: rs, us =>
+    (us.takeWhile (fun u => u.id > r.id)).map .uod ++
+      .int r :: mergeReqs rs (us.dropWhile (fun u => u.id > r.id))
 
 /-- the loop of `execute_commands` over internal and UOD requests; `true` = an internal request raised -/
 def cmdLoopO (cfg : Cfg) : List AnyReq → OState → OState × Bool
